@@ -18,6 +18,8 @@ import GraphiqModel.Proofs.TabSpecFactor
 import GraphiqModel.Proofs.HilbertTab
 import GraphiqModel.Proofs.HilbertKron
 import GraphiqModel.Proofs.HilbertDimHistory
+import GraphiqModel.Proofs.HilbertDimKet
+import GraphiqModel.Proofs.HilbertDimReset
 namespace Graphiq.C07
 open Graphiq Graphiq.PRow Graphiq.Tab
 
@@ -1184,5 +1186,52 @@ example : ∃ t', bell.runOps [.h 0, .cnot 0 1, .meas 1 true, .insert 2, .resetY
       .ptrace [0] [false]] with | .ok _ => true | .error _ => false) = true := by decide +kernel
     rw [hrun] at this; cases this
   | ok t' => exact ⟨t', rfl, history_tracks_density _ hwf bell t' bell_valid bell_real hrun⟩
+
+/-! ### 7.6 resets replace the qubit; the stabilizer state as a vector -/
+
+/-- **`reset_z` / `reset_x` / `reset_y` on density matrices** (the Hilbert-space form of `reset_spec`): the code
+    Z-measures qubit `q` (forced / drawn outcome `o`) and leaves the other qubits in the reduced state of the
+    post-measurement state, `A = Tr_q(Π ρ Π / tr(Π ρ))`; qubit `q` becomes the tensor factor `|i⟩⟨i|` (`reset_z`),
+    `(1 + (-1)^i X)/2` (`reset_x`), `(1 + (-1)^i Y)/2` (`reset_y`), `i` the intended state -/
+theorem reset_is_measure_and_replace (m : Nat) (t : Tab) (q : Nat) (i o : Bool) (hm : t.n = m + 1) (hq : q < t.n)
+    (hv : t.Valid) (hr : t.StabReal) :
+    rho (m + 1) (STab.ofTab (t.resetZ q i o))
+      = insSite q (ptraceSite q (postMeas (m + 1) q o (rho (m + 1) (STab.ofTab t)))) (ketbra i) ∧
+    rho (m + 1) (STab.ofTab (t.resetX q i o))
+      = insSite q (ptraceSite q (postMeas (m + 1) q o (rho (m + 1) (STab.ofTab t)))) (bloch true false i) ∧
+    rho (m + 1) (STab.ofTab (t.resetY q i o))
+      = insSite q (ptraceSite q (postMeas (m + 1) q o (rho (m + 1) (STab.ofTab t)))) (bloch true true i) ∧
+    bloch true false i = (1 / 2 : ℂ) • (1 + (if i then (-1 : ℂ) else 1) • sigmaX) ∧
+    bloch true true i = (1 / 2 : ℂ) • (1 + (if i then (-1 : ℂ) else 1) • sigmaY) :=
+  ⟨rho_resetZ m t q i o hm hq hv hr, rho_resetX m t q i o hm hq hv hr, rho_resetY m t q i o hm hq hv hr,
+   by unfold bloch; rw [sigma_tf], by unfold bloch; rw [sigma_tt]⟩
+
+/-- one-qubit gate matrices are `1 ⊗_q u` (`get_one_qubit_gate`), for any site -/
+theorem one_qubit_gate_is_site_tensor (m q : Nat) (hq : q ≤ m) (u : Matrix Bool Bool ℂ) :
+    oneQ (m + 1) q u = insSite q 1 u := oneQ_eq_insSite m q hq u
+
+example (i o : Bool) : rho 2 (STab.ofTab (bell.resetZ 1 i o))
+    = insSite 1 (ptraceSite 1 (postMeas 2 1 o (rho 2 (STab.ofTab bell)))) (ketbra i) :=
+  (reset_is_measure_and_replace 1 bell 1 i o rfl (by decide) bell_valid bell_real).1
+
+/-- **a pure state is a ket** (linear algebra): a Hermitian idempotent of trace one is `|ψ⟩⟨ψ|` for a unit vector `ψ` -/
+theorem pure_state_is_ket {ι : Type} [Fintype ι] [DecidableEq ι] (P : Matrix ι ι ℂ) (hP : P * P = P) (hH : Pᴴ = P)
+    (htr : Matrix.trace P = 1) : ∃ ψ : ι → ℂ, P = Matrix.vecMulVec ψ (star ψ) ∧ star ψ ⬝ᵥ ψ = 1 :=
+  rank_one_of_pure P hP hH htr
+
+/-- **The literal rank-one form of a stabilizer state.**  For every valid Clifford tableau (real stabilizer rows), every
+    `n`: there is a unit vector `ψ ∈ ℂ^(2^n)` with `ρ = |ψ⟩⟨ψ|` (entrywise `ρ a b = ψ a · conj(ψ b)`); `ψ` is a `+1`
+    eigenvector of every element of the stabilizer group; and every vector fixed by the `n` generators is a scalar multiple
+    of `ψ` — the tableau determines the state vector up to a phase. -/
+theorem stabilizer_state_is_ket (t : Tab) (hv : t.Valid) (hr : t.StabReal) :
+    ∃ ψ : Bits t.n → ℂ,
+      rho t.n (STab.ofTab t) = Matrix.vecMulVec ψ (star ψ) ∧ star ψ ⬝ᵥ ψ = 1 ∧
+      (∀ g, Grp t g → pauliMat t.n g *ᵥ ψ = ψ) ∧
+      (∀ φ : Bits t.n → ℂ, (∀ i, i < t.n → pauliMat t.n (t.stab i) *ᵥ φ = φ) → φ = (star ψ ⬝ᵥ φ) • ψ) :=
+  stabilizer_ket_exists t hv hr
+
+example : ∃ ψ : Bits 3 → ℂ, rho 3 (STab.ofTab ghz3) = Matrix.vecMulVec ψ (star ψ) ∧ star ψ ⬝ᵥ ψ = 1 := by
+  obtain ⟨ψ, h1, h2, _⟩ := stabilizer_state_is_ket ghz3 ghz3_valid ghz3_stabReal
+  exact ⟨ψ, h1, h2⟩
 
 end Graphiq.C07
